@@ -26,6 +26,7 @@ import (
 	"github.com/spikeekips/mitum/isaac"
 	isaacoperation "github.com/spikeekips/mitum/isaac/operation"
 	"github.com/spikeekips/mitum/util"
+	"github.com/spikeekips/mitum/util/encoder"
 	jsonenc "github.com/spikeekips/mitum/util/encoder/json"
 	"github.com/spikeekips/mitum/util/hint"
 	"github.com/spikeekips/mitum/zzverif/vlib"
@@ -100,6 +101,42 @@ func c28Docs(thorough bool) []c28Doc {
 	add("operation", "network-policy", func() any { return vfxNetworkPolicyOp(vfxNs(0, 1)) })
 	add("operation", "genesis-network-policy", func() any { return vfxGenesisNetworkPolicyOp(true) })
 	add("operation", "genesis-join", func() any { return vfxGenesisJoinOp(2, true) })
+
+	// multi-sign objects: the documents above carry 1 or 2 signs; the same node operations with 3 node signs,
+	// and the plain (not node) base.BaseOperation signed by 2 and 3 keys
+	// (signed in different milliseconds, see c28NextMillisecond)
+	for _, signers := range [][]int{{0, 1}, {0, 1, 2}} {
+		signers := signers
+		tag := fmt.Sprintf(",signs=%d,spread", len(signers))
+
+		add("operation", "expel"+tag, func() any {
+			op := vfxExpelOp(vfxN(10), 33, "some reason", nil)
+			c28NodeSignSpread(&op, vfxNs(signers...))
+
+			return op
+		})
+		add("operation", "network-policy"+tag, func() any {
+			op := vfxNetworkPolicyOp(nil)
+			c28NodeSignSpread(&op, vfxNs(signers...))
+
+			return op
+		})
+		add("operation", "candidate"+tag, func() any {
+			op := vfxCandidateOp(nil)
+			c28NodeSignSpread(&op, vfxNs(append([]int{20}, signers[1:]...)...))
+
+			return op
+		})
+		add("operation", "join"+tag, func() any {
+			op := vfxJoinOp(nil)
+			c28NodeSignSpread(&op, vfxNs(append([]int{20}, signers[1:]...)...))
+
+			return op
+		})
+	}
+	add("operation", "plain-base-operation,signs=1", func() any { return c28NewPlainOp(vfxNs(0)) })
+	add("operation", "plain-base-operation,signs=2", func() any { return c28NewPlainOp(vfxNs(0, 1)) })
+	add("operation", "plain-base-operation,signs=3", func() any { return c28NewPlainOp(vfxNs(0, 1, 2)) })
 
 	// block map, suffrage proof, state
 	add("blockmap", "all-items", func() any {
@@ -226,6 +263,15 @@ var c28AllowList = []c28Allow{
 		Why: "the merkle proof inside a suffrage proof is not signed content; it is checked by SuffrageProof.Prove (run by this check after IsValid). " +
 			"fixedtree.Proof.Prove recomputes parent hashes from the children's hashes, so the key of a proof node other than the proved one is bound by no hash " +
 			"(util/fixedtree, reported under C12); every proof[].hash mutation is rejected and is checked.",
+	},
+	{
+		Name: "signs-only-genuine-signs-left", Owner: "*", Field: "signs", Muts: []string{"signs-subset"},
+		Why: "the compound sign mutations (copy fields between signs / insert a sign, then recompute the operation's unkeyed digest) can produce a list in which every " +
+			"element is, field for field, one of the original signs: an element repeated and/or one missing (copying ALL fields of sign i onto sign j; inserting the exact " +
+			"duplicate). No signed content changed and nothing was added that its signer did not produce; every sign in the list is still verified. " +
+			"base.BaseNodeOperation rejects a repeated node, base.BaseOperation accepts the repetition; whether the remaining signers suffice is decided against the " +
+			"suffrage / the keys of the account (base.CheckFactSignsBySuffrage, isaac operation processors, applications), outside IsValid(networkID) - " +
+			"the same reasoning as voteproof-drop-vote. Any altered or invented sign in the list is NOT covered by this entry.",
 	},
 	{
 		Name: "voteproof-variant", Owner: "*voteproof", Field: "_hint",
@@ -531,7 +577,7 @@ func c28Time(s string) (time.Time, bool) {
 }
 
 // c28Mutations: every mutation of the alphabet applicable at node p.
-func c28Mutations(root, twin any, p c28Path, v any, hints []string) []c28Mut {
+func c28Mutations(enc *jsonenc.Encoder, root, twin any, p c28Path, v any, hints []string) []c28Mut {
 	var ms []c28Mut
 
 	ps := p.String()
@@ -661,6 +707,11 @@ func c28Mutations(root, twin any, p c28Path, v any, hints []string) []c28Mut {
 		add("negate", "negate", c28Edit(root, p, !t, false), nil)
 	}
 
+	// the list of signs of one object: compound mutations (see c28_signs_test.go)
+	if g := c28SignGroupAt(root, p, v); g != nil {
+		ms = append(ms, c28SignMutations(enc, root, twin, g)...)
+	}
+
 	return ms
 }
 
@@ -675,6 +726,8 @@ type c28Prepared struct {
 	root  any
 	twin  any
 	nodes []c28Path
+	// lists of signs of one object found in the document (kind:n)
+	groups []string
 }
 
 func c28Prepare(t *testing.T, enc *jsonenc.Encoder, d c28Doc) c28Prepared {
@@ -720,9 +773,24 @@ func c28Prepare(t *testing.T, enc *jsonenc.Encoder, d c28Doc) c28Prepared {
 		p.twin = c28Parse(tb)
 	})
 
-	c28Walk(p.root, nil, func(q c28Path, _ any) {
+	c28Walk(p.root, nil, func(q c28Path, v any) {
 		if len(q) > 0 {
 			p.nodes = append(p.nodes, q)
+		}
+
+		// the recomputation of an operation's digest from public data must reproduce the digest of the untouched object
+		if g := c28SignGroupAt(p.root, q, v); g != nil {
+			p.groups = append(p.groups, fmt.Sprintf("%s:n=%d", g.kind, g.n))
+
+			if g.hasRehash {
+				obj, _ := c28Get(c28Clone(p.root), g.rehash)
+				m := obj.(map[string]any) //nolint:forcetypeassert //...
+				old := m["hash"]
+
+				if !c28Rehash(enc, m) || m["hash"] != old {
+					t.Fatalf("%s: recomputed digest of %q is %v, document has %v", p.id, g.rehash.String(), m["hash"], old)
+				}
+			}
 		}
 	})
 
@@ -747,12 +815,21 @@ func TestVerifC28(t *testing.T) {
 	r.Rule("for each valid base document of each signed family: every node of its JSON tree x the whole mutation alphabet " +
 		"(flip a character at 3 positions, time +1ns/+1ms, number +-1, negate, delete, null, same field of a sibling list element, exchange with the sibling, " +
 		"same field of a twin document with other values and signers, duplicate a list element, replace _hint by every other registered hint); " +
+		"for every list of signs of one object (signs of an operation with 1, 2, 3 signs, stand-alone or embedded; sign facts of a voteproof) the compound mutations: " +
+		"every non-empty subset of {node, signer, signature, signed_at} copied from sign i to sign j for all ordered pairs, every field of every sign edited alone, " +
+		"a sign derived from sign i (exact duplicate / garbage signature / node that never signed / later time) inserted at the front or the end, " +
+		"each followed by the recomputation of the operation's unkeyed hash from the public data; " +
 		"plus validation under another network id; plus all pairs of fact kinds on identical field values. " +
 		"non-trivial = the mutated document decodes (validation, not the decoder, has to reject it)")
 	r.Assume("validation is IsValid(networkID) of the decoded top-level object (the property's observation point); suffrage-dependent checks (IsValidVoteproofWithSuffrage) are outside it")
 	r.Assume("signing times, voteproof ids and uuid fields come from the real constructors (wall clock); they are data, not control flow")
+	r.Assume("the hash of an operation is recomputed after a compound sign mutation with the real decoder and HashBytes() (SHA256), as anybody holding the document can; " +
+		"the recomputation is checked to reproduce the hash of every untouched base document")
+	r.Assume("multi-signature plain base.BaseOperation is exercised through a harness-registered hint (c28PlainOp embeds the real type; no registered operation allows several plain signs)")
 
 	enc := vfxNewEncoder()
+	// base.BaseOperation under a hint of its own (c28PlainOp); not in the list of hints tried at every _hint field
+	vfxMust(enc.Add(encoder.DecodeDetail{Hint: c28PlainOpHint, Instance: c28PlainOp{}}))
 
 	ds := vfxAllDetails()
 	hints := make([]string, len(ds))
@@ -766,12 +843,17 @@ func TestVerifC28(t *testing.T) {
 
 	docs := c28Docs(r.Thorough())
 	names := make([]string, len(docs))
+	signgroups := map[string]int{} // "signs:n=3" -> number of such lists in the corpus
 
 	site := 0
 
 	for di := range docs {
 		p := c28Prepare(t, enc, docs[di])
-		names[di] = fmt.Sprintf("%s (%d nodes, %d bytes)", p.id, len(p.nodes), len(p.b0))
+		names[di] = fmt.Sprintf("%s (%d nodes, %d bytes, %d sign lists)", p.id, len(p.nodes), len(p.b0), len(p.groups))
+
+		for _, g := range p.groups {
+			signgroups[g]++
+		}
 
 		// verification under a different network id (one case per document)
 		if r.Mine(site) && r.Want(p.id+"#other-network-id") && !p.doc.nosign {
@@ -814,7 +896,7 @@ func TestVerifC28(t *testing.T) {
 			q := p.nodes[ni]
 			v, _ := c28Get(p.root, q)
 
-			for _, m := range c28Mutations(p.root, p.twin, q, v, hints) {
+			for _, m := range c28Mutations(enc, p.root, p.twin, q, v, hints) {
 				id := p.id + "#" + m.id
 				if !r.Want(id) {
 					continue
@@ -827,6 +909,7 @@ func TestVerifC28(t *testing.T) {
 
 	r.Set("documents", names)
 	r.Set("mutation_sites_total", site)
+	r.Set("sign_lists_in_corpus", signgroups)
 
 	c28FactPairs(r)
 }
@@ -836,6 +919,11 @@ func c28Eval(r *vlib.Run, enc *jsonenc.Encoder, p *c28Prepared, q c28Path, m c28
 	r.Trace()
 	r.StatesN(1)
 	r.Add("mutations."+m.class, 1)
+
+	compound := strings.HasPrefix(m.class, "sign-")
+	if compound {
+		r.Add(fmt.Sprintf("sign_mutations.%s.%s.n=%v.digest-recomputed=%v", m.class, m.extra["group"], m.extra["n"], m.extra["rehash"]), 1)
+	}
 
 	mb, err := json.Marshal(m.doc)
 	if err != nil {
@@ -906,6 +994,22 @@ func c28Eval(r *vlib.Run, enc *jsonenc.Encoder, p *c28Prepared, q c28Path, m c28
 	class := m.class
 	extra := m.extra
 
+	if compound {
+		// what the compound mutation did decides its class: the signs of the existing fixtures may have been made
+		// within one millisecond (then a copied signing time is the allowed sub-millisecond change), and a sign
+		// list may end up with nothing but genuine, unaltered signs
+		if v, ok := c28Get(p.root, q); ok {
+			if g := c28SignGroupAt(p.root, q, v); g != nil {
+				switch rel := c28SignsRelation(p.root, m.doc, g); {
+				case rel == "same":
+					class = "time+1ns"
+				case rel == "subset" && g.kind == "signs":
+					class = "signs-subset"
+				}
+			}
+		}
+	}
+
 	// what the mutation did to a leaf decides its class, not how the new value was obtained
 	if ov, ok := c28Get(p.root, q); ok {
 		if nv, ok := c28Get(m.doc, q); ok {
@@ -952,6 +1056,11 @@ func c28Eval(r *vlib.Run, enc *jsonenc.Encoder, p *c28Prepared, q c28Path, m c28
 	}
 
 	sig := map[string]any{"kind": "survives", "mut": class, "owner": owner, "field": field, "doc": p.top}
+
+	if compound {
+		sig["what"] = m.extra["what"]
+		sig["signs"] = m.extra["n"]
+	}
 
 	if class == "hint-swap" {
 		pair := []string{fmt.Sprint(extra["from"]), fmt.Sprint(extra["to"])}
